@@ -54,7 +54,8 @@ SizedWriteFails(s, e) ==
   \cup Clause("C04", "a refused write changed the readiness",
               e.res = "err" => e.ready = s.ready)
   \cup Clause("C19", "no progress on a length-delimited body although one byte fits",
-              (~refuse /\ e.res = "ok" /\ e.inl > 0 /\ e.outl >= 1 /\ ~BigIsZero(s.left)) => e.c >= 1)
+              \* a refusal consumes nothing either: an error here is "no progress" as well
+              (~refuse /\ e.inl > 0 /\ e.outl >= 1 /\ ~BigIsZero(s.left)) => (e.res = "ok" /\ e.c >= 1))
 
 SizedWriteUpd(s, e) == [s EXCEPT !.left = SizedLeftAfter(s, e), !.ready = e.ready]
 
@@ -115,6 +116,8 @@ ChunkedWriteFails(s, e) ==
                     (~s.ended /\ e.inl = 0 /\ e.outl >= 5) => e.term = 1)
         \cup Clause("C19", "no progress although the smallest chunk fits",
                     (~s.ended /\ e.inl > 0 /\ e.outl >= 6) => e.c >= 1))
+  \cup Clause("C19", "a write of an unfinished body was refused although the smallest chunk fits: no progress",
+              (~s.ended /\ e.inl > 0 /\ e.outl >= 6) => ok)
 
 ChunkedWriteUpd(s, e) ==
   [s EXCEPT !.ended = @ \/ (e.res = "ok" /\ e.term > 0), !.ready = e.ready]
